@@ -783,7 +783,8 @@ raise ValueError."""
             else:
                 typeval = ast.TYPE_INT
             unaliased = typeval
-            self._resolve_type_from_ctype(unaliased)
+            if typeval.target_fundamental is None:
+                self._resolve_type_from_ctype(unaliased)
             if typeval.target_giname and typeval.ctype:
                 target = self.lookup_giname(typeval.target_giname)
                 target = self.resolve_aliases(target)
